@@ -54,12 +54,21 @@ RULE = ('pos: random programs over most statement/expression productions written
         'front of it / in front of tokens / behind it (positions w.r.t. the GIVEN text); strnl: a raw line break inside '
         'a double-quoted string; long single tokens (4299..5500 digits / letters); keywords in NAME positions '
         '(kw_as_identifier_1..4: attribute / parameter / enumerator / variable names) and empty statements in pos programs; '
-        'generated programs, weighted 70 % to mutations.  time: 23 adversarial families at growing lengths.')
+        'generated programs, weighted 70 % to mutations.  uni (kind pos): generated programs whose string literals, ticked '
+        'phrases and inserted block / line comments carry text in other scripts and beyond the basic multilingual plane '
+        '(emoji, mathematical letters / digits, Gothic, CJK extension B, U+10FFFF, combining marks, zero-width and full-width '
+        'characters), bare skipped characters beyond the BMP between tokens, and whose ID tokens are re-spelled as arbitrary '
+        'identifiers (association numbers not of the form R<digits> included); line / column / offset expectations count '
+        'characters of the given text (Python str), also non-trivial = a token with a character beyond the BMP in front of '
+        'it on its line in a multi-line text.  total, streams names-mutation / names-prefix: single-edit mutations and '
+        'token-boundary prefixes of such re-spelled programs.  time: 23 adversarial families at growing lengths.')
 EXHAUSTIVE = {'quick': False, 'thorough': False}
 ASSUMPTIONS = [
     'PLY 3.11 semantics (master alternation in definition order, t_ignore, t_error skip) are hand-modelled; Python re '
     'semantics are those of the generic matcher lean/PyxModel/Regex.lean (the scanners are PROVED equal to it on the '
     'ASTs generated from the rule regexes), which is compared with re.match on random regexes and with PLY on every case',
+    'a column is the 1-based index, in characters (code points) of the text given to oal.parse, within the line delimited by '
+    "'\\n' only: a tab, a carriage return, a combining mark and a character beyond the basic multilingual plane count one each",
     'the lexer model cannot be fed lone surrogates (UTF-8 pipe); such inputs are checked on the implementation only',
     'time bounds of `re` and PLY are validated (budget 1.0 s + 0.5 ms per character of CPU time of the worker process, smallest of three measurements when the first exceeds it), not proved',
 ]
@@ -197,6 +206,162 @@ def _with_junk(rng, item):
     return out
 
 
+# ---- text in other scripts / beyond the basic multilingual plane, identifiers of every spelling ----------------
+# characters above U+FFFF (one character of the given text each, two UTF-16 code units, four UTF-8 bytes): emoji,
+# mathematical letters / digits (word characters for `re`), Gothic, a CJK extension ideograph, the last code point
+ASTRAL = ['\U0001F600', '\U0001F4A1', '\U0001D49C', '\U00010348', '\U0001d7d8', '\U00020000', '\U0010ffff', '\U0001F1E9\U0001F1EA']
+# characters of the basic multilingual plane outside ASCII (one, two or three UTF-8 bytes; combining mark, zero width
+# space, full-width digit).  No character that some convention other than '\n' treats as a line break.
+BMP = ['\u00e9', '\u00df', '\u03a9', '\u6f22\u5b57', '\u2200', 'e\u0301', '\u200b', '\u0663', '\uff15', '\u00a0', '\u3000', '\ufffd']
+PLAIN = ['', ' ', 'a', 'ok ', 'x;y', ' end if ', '//', '/*', '\t', '1']
+# bare characters NO RULE MATCHES that are not word characters (t_error skips them): usable between tokens
+ASTRAL_JUNK = ['\U0001F600', '\U0001F4A1', '\U0010ffff', '\U0001F600\U0001F4A1', '\U00010348 ']
+# spellings of an identifier (ASCII, as the ID rule demands): association / class / variable / attribute / function
+# names need not look like `R1` / `A` / `x` for the text to be a valid program
+ODD_IDS = [w for w in ['foo', 'Rx', 'R_1', 'R1x', 'r', 'R', '_', '_1', 'x9', 'A1', 'R01', 'rel', 'R', 'r12x', 'Assoc',
+                       'R1_2', 'xR1', 'R1R2', 'Rel1', 'R1a', 'ends', 'iff', 'e3', 'R9999999999', 'X', 'owner_of']
+           if w.upper() not in G.KWSET]
+
+
+def _uni_body(rng, forbidden, newline=False):
+    """text for the inside of a string literal / ticked phrase / comment: a few pieces, each beyond the BMP (half of
+    them), in the BMP outside ASCII, or plain"""
+    out = []
+    for _ in range(rng.choice([1, 1, 2, 3, 5])):
+        k = rng.random()
+        out.append(rng.choice(ASTRAL) if k < 0.5 else rng.choice(BMP) if k < 0.75 else
+                   '\n' if (newline and k < 0.8) else rng.choice(PLAIN))
+    body = ''.join(out)
+    for ch in forbidden:
+        body = body.replace(ch, '')
+    return body
+
+
+def _uni_spelling(rng, prog, p_ids=0.5):
+    """per token of a generated program another spelling of the SAME token class: string literals and ticked phrases
+    with text in other scripts / beyond the BMP inside, identifiers (ID tokens) spelled like any identifier"""
+    spell = [None] * len(prog.toks)
+    for i, t in enumerate(prog.toks):
+        if t.kind == 'STRING' and rng.random() < 0.85:
+            spell[i] = '"' + _uni_body(rng, '"\n') + '"'
+        elif t.kind == 'TICKED_PHRASE' and rng.random() < 0.85:
+            spell[i] = "'" + _uni_body(rng, "'", newline=True) + "'"
+        elif t.kind == 'ID' and rng.random() < p_ids:
+            spell[i] = rng.choice(ODD_IDS)
+    return spell
+
+
+def _uni_insert(rng):
+    """layout text that may stand in front of any token: a block comment / line comment with text beyond the BMP (or in
+    other scripts) inside, or bare characters no rule matches.  A leading blank keeps a preceding `/` or `*` apart."""
+    k = rng.random()
+    if k < 0.5:
+        body = _uni_body(rng, '', newline=True).replace('*/', '* /')
+        if body.endswith('*') or body.endswith('/'):
+            body += ' '
+        return ' /*' + rng.choice(['', ' ']) + body + '*/' + rng.choice(['', ' ', '\t'])
+    if k < 0.7:
+        return ' //' + _uni_body(rng, '\n') + '\n' + rng.choice(['', ' ', '\t'])
+    return ' ' + rng.choice(ASTRAL_JUNK)
+
+
+def _with_inserts(rng, item, make):
+    """the same program with layout text `make(rng)` (comments / skipped characters) in front of it, in front of
+    some of its tokens and behind it: the token stream is the same, every position must be exact with respect to the
+    GIVEN text (offsets / lines / columns recomputed by the independent line/column oracle on the new text, which
+    counts characters of the given text: a tab, a combining mark, a character beyond the BMP are one column each)"""
+    text = item['text']
+    kinds = item['kinds']
+    ins = {}
+    where = rng.choice(['start', 'middle', 'middle', 'all', 'all'])
+    if where in ('start', 'all'):
+        ins[-1] = make(rng)
+    if where in ('middle', 'all'):
+        for i in rng.sample(range(len(kinds)), min(len(kinds), rng.choice([1, 2, 4, 8]))):
+            if kinds[i] == 'DOUBLECOLON' or (i > 0 and kinds[i - 1] in ('NAMESPACE', 'DOUBLECOLON')):
+                continue
+            ins[i] = make(rng)
+    tail = make(rng) if where == 'all' else ''
+    parts = []
+    pos = 0
+    delta = 0
+    new_off = []
+    if -1 in ins:
+        parts.append(ins[-1])
+        delta += len(ins[-1])
+    for i, (st, sp, _, _, _, _) in enumerate(item['toks']):
+        parts.append(text[pos:st])
+        if i in ins:
+            parts.append(ins[i])
+            delta += len(ins[i])
+        parts.append(text[st:sp])
+        new_off.append((st + delta, sp + delta))
+        pos = sp
+    parts.append(text[pos:])
+    parts.append(tail)
+    new = ''.join(parts)
+    toks = []
+    for st, sp in new_off:
+        l1, c1 = _linecol(new, st)
+        l2, c2 = _linecol(new, sp - 1)
+        toks.append([st, sp, l1, c1, l2, c2])
+    out = dict(item)
+    out['text'] = new
+    out['toks'] = toks
+    out['stats'] = dict(item['stats'])
+    out['stats']['layout-uni-inserts-' + where] = 1
+    return out
+
+
+def _astral_ahead(text, toks):
+    """number of tokens that have a character beyond the BMP in front of them on their own line"""
+    n = 0
+    for st, sp, _, _, _, _ in toks:
+        b = text.rfind('\n', 0, sp - 1) + 1
+        if any(ord(ch) > 0xFFFF for ch in text[b:sp - 1]):
+            n += 1
+    return n
+
+
+def _uni_case(rng, tag):
+    """a `pos` case whose string literals / ticked phrases / comments carry text in other scripts and beyond the BMP
+    and whose identifiers have arbitrary spellings"""
+    prog = G.gen_program(rng, max_depth=rng.choice([2, 3]), max_stmts=rng.choice([1, 3, 6]), empty_clause_blocks=True)
+    spell = _uni_spelling(rng, prog)
+    style = rng.choice(['wild', 'plain', 'plain', 'tight'])
+    pl = G.layout(rng, prog, style, spell)
+    nodes = [[cls, f, l, flag] for f, l, cls, flag in G.checked_spans(prog.root)]
+    toks = [[pl.start[i], pl.stop[i], pl.line[i], pl.col[i], pl.eline[i], pl.ecol[i]] for i in range(len(prog.toks))]
+    st = dict(prog.stats)
+    for k, v in pl.stats.items():
+        st['layout-' + k] = v
+    c = {'kind': 'pos', 'text': pl.text, 'toks': toks, 'nodes': nodes, 'style': style, 'stats': st,
+         'kinds': [t.kind for t in prog.toks], 'gen': tag}
+    if rng.random() < 0.7:
+        c = _with_inserts(rng.fork('ins'), c, _uni_insert)
+    c['stats']['layout-uni'] = 1
+    n = _astral_ahead(c['text'], c['toks'])
+    if n:
+        c['stats']['layout-astral'] = 1
+        c['stats']['layout-tokens-behind-astral'] = n
+    if any(s is not None and prog.toks[i].kind == 'ID' for i, s in enumerate(spell)):
+        c['stats']['layout-odd-identifier'] = 1
+    return c
+
+
+def _names_cases(rng, tag):
+    """totality on texts next to valid programs whose identifiers / literals have arbitrary spellings: one single-edit
+    mutation and some token-boundary prefixes (the program cut off after a token) of each"""
+    prog = G.gen_program(rng, max_depth=2, max_stmts=rng.choice([1, 1, 2, 3]))
+    pl = G.layout(rng, prog, rng.choice(['plain', 'plain', 'wild', 'tight']), _uni_spelling(rng, prog, 0.7))
+    kind, text = G.mutate(rng, prog, pl)
+    yield {'kind': 'total', 'stream': 'names-mutation:' + kind, 'text': text, 'gen': tag}
+    n = len(prog.toks)
+    for i in rng.sample(range(n), min(n, 5)):
+        yield {'kind': 'total', 'stream': 'names-prefix', 'text': pl.text[:pl.stop[i]] + rng.choice(['', '', '\n', ' ']),
+               'gen': tag}
+
+
 def _linecol(text, off):
     """independent oracle: 1-based line and column of offset `off`"""
     line = text.count('\n', 0, off) + 1
@@ -330,6 +495,11 @@ def generate(ctx):
         if i % 5 == 0:
             c = _with_junk(r.fork('junk'), c)       # illegal (skipped) characters at the start / between tokens / at the end
         yield c
+    # text in other scripts / beyond the BMP inside string literals, ticked phrases and comments, bare skipped characters
+    # beyond the BMP between tokens, identifiers of every spelling: columns count characters of the GIVEN text
+    rng = ctx.rng.fork('uni')
+    for i in range(ctx.pick(900, 12000)):
+        yield _uni_case(rng.fork(i), ['uni', i])
     # a raw line break inside a double-quoted string: rejected, or a tree with exact positions
     rng = ctx.rng.fork('strnl')
     for i in range(ctx.pick(200, 3000)):
@@ -351,6 +521,11 @@ def generate(ctx):
             pl = G.layout(r, prog, r.choice(['wild', 'plain', 'plain', 'tight']))
             kind, text = G.mutate(r, prog, pl)
             yield {'kind': 'total', 'stream': 'mutation:' + kind, 'text': text}
+    # totality next to valid programs with arbitrarily spelled identifiers / literals: single edits and prefixes
+    rng = ctx.rng.fork('total-names')
+    for i in range(ctx.pick(700, 10000)):
+        for c in _names_cases(rng.fork(i), ['names', i]):
+            yield c
     # every `pos` case has been evaluated by now (the stream above is several chunks long): D is vacuous on a `pos`
     # case the parser rejected or grouped differently from what was written - bound their share
     n_pos_run = ctx.stats.get('kind_pos', 0)
@@ -359,10 +534,14 @@ def generate(ctx):
         # more texts than allowed that the parser rejects / groups differently: the usual cause is a change of the
         # implementation (grammar, lexer flags ...), so this is a BROKEN TIE (the runner searches for a failing input
         # and reports `no-failing-input-found` otherwise), not a defect of the harness
-        raise getattr(common, 'BrokenTie', common.HarnessError)('%d of %d position cases could not be checked (%d rejected by the parser, %d with a '
-                                  'tree shape other than written): the position predicate D was vacuous on more than '
-                                  '%.0f %% of them' % (skipped, n_pos_run, ctx.stats.get('pos_unparsed', 0),
-                                                      ctx.stats.get('pos_shape_differs', 0), 100 * SKIP_LIMIT))
+        # Not raised here (that would end the run before the failing inputs already in hand are reported and before the
+        # enlarged search): a last case on which run_impl raises BrokenTie - the runner records the broken obligation,
+        # reports a D failure found on this run or goes on to search for one.
+        yield {'kind': 'guard', 'text': '',
+               'message': '%d of %d position cases could not be checked (%d rejected by the parser, %d with a '
+                          'tree shape other than written): the position predicate D was vacuous on more than '
+                          '%.0f %% of them' % (skipped, n_pos_run, ctx.stats.get('pos_unparsed', 0),
+                                              ctx.stats.get('pos_shape_differs', 0), 100 * SKIP_LIMIT)}
 
 
 def search(ctx, broken):
@@ -386,6 +565,9 @@ def search(ctx, broken):
                 yield c
         if i % 3 == 0:
             yield {'kind': 'total', 'stream': 'arbitrary', 'text': G.arbitrary_string(r, 80)}
+        yield _uni_case(r.fork('uni'), ['search-uni', i])
+        for c in _names_cases(r.fork('names'), ['search-names', i]):
+            yield c
 
 
 # ------------------------------------------------------------------------------------------ implementation
@@ -501,7 +683,7 @@ def _check_positions(text, toks, exp, out, root, st, stats, fails, short):
         return False
     lines = text.count('\n') + 1
     nontrivial = lines >= 2 and any(k in st for k in ('layout-comment', 'layout-line-comment',
-                                                       'layout-end-split', 'layout-phrase-newline'))
+                                                       'layout-end-split', 'layout-phrase-newline', 'layout-astral'))
     n0 = len(fails)
     for (cls, pos, stream), (_, f, l, flag) in zip(act, exp):
         want = [toks[f][0], toks[f][2], toks[f][3], toks[l][1], toks[l][4], toks[l][5]]
@@ -534,6 +716,8 @@ def _run_regex(case):
 def run_impl(case):
     if case['kind'] == 'regex':
         return _run_regex(case)
+    if case['kind'] == 'guard':
+        raise common.BrokenTie(case['message'])
     text = case['text']
     fails = []
     unsound = None
@@ -642,6 +826,8 @@ def run_impl(case):
 def model_line(case):
     if case['kind'] == 'grammar':
         return '(c13-grammar)'
+    if case['kind'] == 'guard':
+        return None
     if case['kind'] == 'regex':
         return '(c13-regex %s %s)' % (case['ast'], ' '.join(dumps(t) for t in case['texts']))
     text = case['text']
@@ -660,7 +846,7 @@ def model_obs(case, ans):
 
 
 def shrink_candidates(case):
-    if case['kind'] in ('pos', 'seq', 'tight', 'grammar', 'regex', 'strnl'):
+    if case['kind'] in ('pos', 'seq', 'tight', 'grammar', 'regex', 'strnl', 'guard'):
         return
     text = case['text']
     n = len(text)
